@@ -281,6 +281,9 @@ func cmdCheck(args []string) int {
 				if o.Support && o.Result != "unsat" && !excl[o.FactIdx] {
 					excl[o.FactIdx] = true
 					nSupportFailed++
+					if os.Getenv("GOVC_DEBUG") != "" {
+						fmt.Printf("support-failed: %s result=%s\n", o.Name, o.Result)
+					}
 				}
 				if o.Support && o.Result != "unsat" && firstIdx < 0 {
 					firstIdx = i
@@ -354,6 +357,7 @@ func cmdCheck(args []string) int {
 		undecided = append(undecided, "no obligations generated")
 	}
 	known := loadKnownFindings()
+	var knownSeen []map[string]any
 	violations := 0
 	var lines []string
 	os.MkdirAll(replayDir(id), 0o755)
@@ -374,7 +378,8 @@ func cmdCheck(args []string) int {
 		isKnown := false
 		for _, k := range known {
 			if k.kind == "known" && k.prop == id && k.obl == o.Name {
-				lines = append(lines, fmt.Sprintf("KNOWN-FINDING: property=%s %s", id, k.text))
+				lines = append(lines, fmt.Sprintf("KNOWN-FINDING: property=%s %s", id, strings.TrimSpace(strings.TrimPrefix(k.text, "property="+id))))
+				knownSeen = append(knownSeen, map[string]any{"obligation": o.Name, "result": o.Result, "what": strings.TrimSpace(strings.TrimPrefix(k.text, "property="+id))})
 				isKnown = true
 			}
 		}
@@ -415,7 +420,7 @@ func cmdCheck(args []string) int {
 	wall := time.Since(t0).Seconds()
 	writeEvidence(id, *tier, seed, &def, results, covers, wall, violations, undecided, map[string]any{
 		"total": total, "discharged": discharged, "backends": backends, "solver_s": solverSecs, "bounded": boundedOut,
-		"support": nSupport, "support_failed": nSupportFailed, "resolved_without_support": nResolved,
+		"support": nSupport, "support_failed": nSupportFailed, "resolved_without_support": nResolved, "known_findings": knownSeen,
 	})
 	for _, l := range lines {
 		fmt.Println(l)
@@ -633,6 +638,11 @@ func writeEvidence(id, tier string, seed int, def *PropDef, results []*FuncResul
 		cov["solver_time_s"] = sums["solver_s"]
 		if b, ok := sums["bounded"]; ok && b != nil {
 			cov["bounded"] = b
+		}
+		if k, ok := sums["known_findings"].([]map[string]any); ok && len(k) > 0 {
+			// failed obligations that the committed KNOWN_FINDINGS.txt lists (genuine, unrepaired defects): reported as
+			// KNOWN-FINDING, not counted as discharged, never assumed
+			cov["known_findings"] = k
 		}
 		cov["supporting_obligations"] = map[string]any{"solved": sums["support"], "failed": sums["support_failed"], "selected_resolved_without_failed_support": sums["resolved_without_support"],
 			"note": "obligations of the selected functions that are outside the property's selection but assumed by selected obligations after them; a failed one is not reported itself, the selected obligations after it are re-solved without its fact"}
